@@ -145,6 +145,9 @@
         // the change tag: New exactly for an address that was not registered, otherwise a value / time update
         (r.0 is New <==> !old(self).instances@.contains_key(key_of(instance))), r.0 is New || r.0 is UpdateValue || r.0 is UpdateTime,   // @C11
         final(self).instances@[key_of(instance)].last_modified_millis == instance.last_modified_millis,   // @C13
+        // C13: a heartbeat (any update of the address) carries its health flag into the registry: an instance that was marked unhealthy
+        // and beats again is healthy again — no update tag keeps the old flag
+        final(self).instances@[key_of(instance)].healthy == instance.healthy,   // @C13
         // C13: a heart-beating HTTP instance is (re)armed on the health clock at its heartbeat time
         (timeout_enabled(*final(self).instances@[key_of(instance)]) && !from_sync) ==>   // @C13
             final(self).healthy_timeout_set.armed(instance.last_modified_millis as u64, key_of(instance)),
